@@ -236,6 +236,10 @@ func listAll(root string) []string {
 	return out
 }
 
+// CaseDigest accumulates the digests of all runs executed since the last reset; the determinism
+// self-test compares it per case across processes.
+var CaseDigest string
+
 // HangBudget bounds one simulated build.
 var HangBudget = 120 * time.Second
 
@@ -380,6 +384,7 @@ func Exec(t Target, w *World) *Result {
 	for _, p := range listAll(tmp) {
 		res.Stray = append(res.Stray, "$TMP/"+p)
 	}
+	CaseDigest = shaStr(CaseDigest + digest(res) + fmt.Sprint(len(res.Ops), len(res.Fired)))
 	for _, f := range w.Files {
 		if filepath.Clean(f.Path) == filepath.Clean(w.Out) {
 			continue
